@@ -38,8 +38,12 @@ MUTANTS = [
     ("stop_early_ignored_on_launch", "execution/executor.py", "                    if stop_on_first_error:\n                        return True\n", "", ["C03"]),
     ("no_terminate", "execution/executor.py", "            self._inflight_ops.terminate_processes()\n\n            # 3. Report", "            pass\n\n            # 3. Report", ["C03"]),
     ("pop_wrong_end", "utils/sigchld.py", "return self._returncodes.pop()", "return self._returncodes.pop(0)", []),
-    ("lost_wakeup", "utils/sigchld.py", "        self._returncodes.append((pid, returncode))\n        os.write(self._write_pipe, b\"\\0\")\n",
-     "        if not self._returncodes:\n            os.write(self._write_pipe, b\"\\0\")\n        self._returncodes.append((pid, returncode))\n", ["C09"]),
+    # (the protocol `lost_wakeup` used to mutate - one pipe byte per reaped child written by the Python-level handler - was
+    #  replaced by the D14 repair; these two are its analogues on the wakeup-fd protocol)
+    ("lost_wakeup", "utils/sigchld.py", "        existing_wakeup_fd = signal.set_wakeup_fd(\n            self._write_pipe, warn_on_full_buffer=False\n        )\n",
+     "        existing_wakeup_fd = signal.set_wakeup_fd(-1)\n", ["C09"]),
+    ("wait_reads_once", "utils/sigchld.py", "        while len(self._returncodes) == 0:\n            _ = os.read(self._read_pipe, 4096)\n",
+     "        if len(self._returncodes) == 0:\n            _ = os.read(self._read_pipe, 1)\n", ["C09"]),
     ("handler_reaps_one", "utils/sigchld.py", "                SigchldHelper.instance()._add_returncode(pid, returncode)\n",
      "                SigchldHelper.instance()._add_returncode(pid, returncode)\n                break\n", ["C09"]),
     ("drop_popen", "execution/ops/run_task_executable.py", "            handle.process = process\n", "", ["C09"]),
@@ -112,7 +116,7 @@ BENIGN = [
                               ("execution/executor.py", "self._parallel_ops: Deque[Operation] = collections.deque()", "self._parallel_ops = []"),
                               ("execution/executor.py", "return self._parallel_ops.popleft()", "return self._parallel_ops.pop(0)"),
                               ("execution/executor.py", "return self._sequential_ops.popleft()", "return self._sequential_ops.pop(0)")]),
-    ("pipe_byte_and_extra_logging", [("utils/sigchld.py", 'os.write(self._write_pipe, b"\\0")', 'os.write(self._write_pipe, b"x")'),
+    ("pipe_byte_and_extra_logging", [("utils/sigchld.py", "_ = os.read(self._read_pipe, 4096)", "_ = os.read(self._read_pipe, 512)"),
                                      ("execution/executor.py", "            self._ready_to_run.load(plan.initial_ops)\n", "            self._ready_to_run.load(plan.initial_ops)\n            print_bold(\"Planned {} task(s).\".format(plan.num_tasks_to_run))\n")]),
     ("gc_with_os_walk_order", [("cli/gc.py", "        for inner in curr_path.iterdir():", "        for inner in sorted(curr_path.iterdir(), reverse=True):")]),
     ("restore_copy2_and_sorted_rows", [("cli/restore.py", "shutil.copytree(src_task_path, dest_task_path, symlinks=True)", "shutil.copytree(src_task_path, dest_task_path, symlinks=True, copy_function=shutil.copy2)"),
